@@ -257,6 +257,8 @@ func (ex *Exec) resetPath(prefix []int64) {
 	ex.nondet = 0
 	ex.guard = nil
 	ex.spec = 0
+	ex.rngCache = map[int]rng{}
+	ex.varRng = map[int]rng{}
 	ex.noMerge = os.Getenv("VP_NOMERGE") != ""
 }
 
